@@ -185,6 +185,7 @@ func treeKey(dir string) string {
 type c20Scenario struct {
 	Name      string
 	NoClobber bool
+	Third     []byte // stored to completion after each crash (recovery step); nil: skip
 	OldDoc    []byte // nil: first-time store
 	NewDoc    []byte
 	Neighbour []byte
@@ -366,7 +367,48 @@ func c20Run(env *storeEnv, sc c20Scenario, work string) (int, int, error) {
 			}
 		}
 	}
-	// the last boundary state followed by nothing = the uncrashed directory is checked through state 0
+	// (5) recovery: after the crash the application stores a third, shorter document under the same id and this
+	// store completes; the entry must then hold exactly that document, whatever the crash left behind
+	third := sc.Third
+	if third != nil {
+		var follow []crashState
+		for i, st := range states {
+			if i == 0 || strings.HasPrefix(st.What, "killed") || i%7 == 3 {
+				follow = append(follow, st)
+			}
+		}
+		var sreqs, rreqs []childReq
+		for _, st := range follow {
+			sreqs = append(sreqs, childReq{Op: "store", Dir: filepath.Join(st.Dir, base), Doc: base64.StdEncoding.EncodeToString(third)})
+			rreqs = append(rreqs, childReq{Op: "retrieve", Dir: filepath.Join(st.Dir, base), IDs: ids})
+		}
+		sr := env.run(sreqs)
+		if sr.Exit != 0 || len(sr.Res) != len(follow) {
+			return len(states), nontrivial, fmt.Errorf("scenario %s: storing again after a crash terminated the process (exit %d): %s", sc.Name, sr.Exit, trunc(sr.Stderr, 300))
+		}
+		rr := env.run(rreqs)
+		if rr.Exit != 0 || len(rr.Res) != len(follow)*perState {
+			return len(states), nontrivial, fmt.Errorf("scenario %s: retrieving after a post-crash store terminated the process (exit %d): %s", sc.Name, rr.Exit, trunc(rr.Stderr, 300))
+		}
+		thirdDoc := decode(third)
+		for i, st := range follow {
+			if sr.Res[i].Err != "" {
+				return len(states), nontrivial, fmt.Errorf("scenario %s, state %q: a store after the crash fails: %s", sc.Name, st.What, sr.Res[i].Err)
+			}
+			x := rr.Res[i*perState]
+			raw, _ := base64.StdEncoding.DecodeString(x.Doc)
+			if x.Err != "" || !proto.Equal(decode(raw), thirdDoc) {
+				return len(states), nontrivial, fmt.Errorf("scenario %s, state %q: after a completed store following the crash, retrieve does not return that document (err=%q, got %d bytes, want %d)", sc.Name, st.What, x.Err, len(raw), len(third))
+			}
+			if neighbourID != "" {
+				y := rr.Res[i*perState+1]
+				rawN, _ := base64.StdEncoding.DecodeString(y.Doc)
+				if y.Err != "" || !proto.Equal(decode(rawN), decode(sc.Neighbour)) {
+					return len(states), nontrivial, fmt.Errorf("scenario %s, state %q: the neighbour entry is affected by the post-crash store", sc.Name, st.What)
+				}
+			}
+		}
+	}
 	return len(states), nontrivial, nil
 }
 
@@ -435,6 +477,18 @@ func TestC20(t *testing.T) {
 					sc.OldDoc = genC20Doc(seed*1000+di*10+si+500, id, size/2+7)
 				}
 				sc.NoClobber = strings.HasSuffix(scn, "noclobber")
+				if !sc.NoClobber {
+					// a third document, shorter than the interrupted one, aligned on a field boundary of it when possible
+					sc.Third = genC20Doc(seed*1000+di*10+si+700, id, size/4+3)
+					if fb := topLevelFieldBoundaries(sc.NewDoc); len(fb) > 1 && si%2 == 0 {
+						d3 := &sbom.Document{}
+						_ = proto.Unmarshal(sc.NewDoc[:fb[0]], d3) // metadata only: exactly as long as the first field of the new document
+						d3.Metadata.Id = id
+						if b3, err := proto.Marshal(d3); err == nil {
+							sc.Third = b3
+						}
+					}
+				}
 				if scn == "overwrite_with_neighbour" {
 					sc.Neighbour = genC20Doc(seed*1000+di*10+si+900, "urn:neighbour", 200)
 				}
